@@ -33,8 +33,8 @@ ASSUMPTIONS = [
     "formatEventAsClassicLogText and textFromEventDict may return None where their documentation says so",
     "legacy event dicts always carry 'message' (a tuple) and 'isError', as twisted.python.log guarantees",
 ]
-MIN = {"quick": {"evaluations": 860000, "nontrivial": 850000, "outcomes": 8},
-       "thorough": {"evaluations": 1860000, "nontrivial": 1830000, "outcomes": 8}}
+MIN = {"quick": {"evaluations": 840000, "nontrivial": 820000, "outcomes": 8},
+       "thorough": {"evaluations": 1800000, "nontrivial": 1750000, "outcomes": 8}}
 
 
 # ----------------------------------------------------------------- hostile values
@@ -631,6 +631,11 @@ def l_eval(st, spec):
         b, _ = l_judge(trial)
         if b and b[0] == kind:
             small = trial
+    if small["failure"] not in ("absent", "failure"):
+        trial = dict(small, failure="failure")      # simplest member of the domain that keeps the failure
+        b, _ = l_judge(trial)
+        if b and b[0] == kind:
+            small = trial
     desc = l_describe(small)
     st.outcome(kind)
     st.violation("textFromEventDict:%s:%s" % (kind, desc), "%s (%s) for legacy event %r (minimised from %r)" % (
@@ -698,7 +703,7 @@ def space_c():
             for f in L_FAILURE:
                 for w in L_WHY:
                     for fmt in L_FORMAT:
-                        for a in VALUES:
+                        for a in (VALUES if "(a)" in fmt else ("str",)):   # 'a' is only reachable through %(a)
                             yield {"message": m, "isError": e, "failure": f, "why": w, "format": fmt, "a": a}
 
 
